@@ -117,8 +117,14 @@ func isLocalRoot(a *Sym) bool {
 // rawLocal: the address denotes (part of) a local variable or an object freshly
 // allocated in this function — decided on the raw SSA address chain, so that a
 // spilled by-value parameter (Alloc) is local even though its Sym is the parameter.
-func rawLocal(v ssa.Value) bool {
+func rawLocal(v ssa.Value) bool { return rawLocalSeen(v, map[ssa.Value]bool{}) }
+
+func rawLocalSeen(v ssa.Value, seen map[ssa.Value]bool) bool {
 	for i := 0; i < 32; i++ {
+		if seen[v] {
+			return true // a cycle through phis: decided by the other edges
+		}
+		seen[v] = true
 		switch x := v.(type) {
 		case *ssa.Alloc, *ssa.MakeSlice, *ssa.MakeMap:
 			return true
@@ -130,7 +136,7 @@ func rawLocal(v ssa.Value) bool {
 			v = x.X
 		case *ssa.Phi:
 			for _, e := range x.Edges {
-				if e != v && !rawLocal(e) {
+				if e != v && !rawLocalSeen(e, seen) {
 					if _, isPhi := e.(*ssa.Phi); isPhi {
 						continue
 					}
